@@ -4,6 +4,7 @@ import (
 	"context"
 	"fmt"
 	"math/rand"
+	"reflect"
 	"sort"
 	"strings"
 	"sync"
@@ -88,7 +89,9 @@ st2 = make(struct { S struct { A []int64 } })
 // noPanicInWorker runs one source text in the worker child: parse + execute with Debug=false.
 // A panic of the calling goroutine is reported; a panic of a goroutine started by the script kills
 // the child, which the parent sees.
-func noPanicInWorker(src string) (answer string) { return noPanicInWorkerFor(src, 250*time.Millisecond) }
+func noPanicInWorker(src string) (answer string) {
+	return noPanicInWorkerFor(src, 250*time.Millisecond)
+}
 
 // noPanicInWorkerFor: the same with a chosen time allowance (goroutine scenarios need longer).
 func noPanicInWorkerFor(src string, allow time.Duration) (answer string) {
@@ -342,6 +345,7 @@ func noPanicSweep(o *Out) {
 				"switch "+l+" { case "+r+": 1 }", "for q in "+l+" { "+r+" }", "zz = "+l+"\nzp = &zz\nzp == "+r, "zz = "+l+"\nzp = &zz\n"+r+" in [zp]", "zz = "+l+"\nzp = &zz\nswitch "+r+" { case zp: 1 }", "make([]int64, "+l+", "+r+")", "g("+l+", "+r+")", "sum("+l+", "+r+")")
 		}
 		srcs = append(srcs, "p1, p2 = "+l, "var p1, p2 = "+l, "p1, p2, p3 = "+l, "p1, p2 = "+l+", "+l, "-("+l+")", "!("+l+")", "^("+l+")", "zz = "+l+"\nzz++", "zz = "+l+"\nzz--",
+			"make(type TT, "+l+")", "zz = make(type TT, "+l+")\nzz", "[make(type TT, "+l+")]", "make(type TT, "+l+")\nmake(TT)", "make(type TT, "+l+")\nzz = make([]TT, 1)\nzz[0]", "make(type TT, "+l+")\nnew(TT)",
 			"len("+l+")", "make([]int64, "+l+")", "make(chan int64, "+l+")", "toString("+l+")", "toInt("+l+")", "toFloat("+l+")", "toBool("+l+")", "keys("+l+")", "range("+l+")",
 			"for q in "+l+" { break }", "delete("+l+", 1)", "cch <- "+l, "cch <- <- cch", "<- "+l, "zz, zo = <- "+l, "close("+l+")", "throw "+l, "return "+l, "sum("+l+"...)", "g(1, "+l+"...)", "func(p...) { return p }("+l+"...)", "*("+l+")", "zz = "+l+"\n&zz")
 	}
@@ -362,6 +366,29 @@ func noPanicSweep(o *Out) {
 			for _, form := range []string{"zz = make(pk.%s)\ntypeOf(zz)", "zz = make([]pk.%s, 2)\nzz[0]", "zz = new(pk.%s)\n*zz", "zz = make(chan pk.%s, 1)\nlen(zz)",
 				"zz = make(map[string]pk.%s)\nzz[\"k\"]", "zz = make(pk.%s)\nzz == zz", "zz = make(pk.%s)\ntoString(zz)", "zz = make(*pk.%s)\nzz", "zz = make(struct { F pk.%s })\nzz.F"} {
 				srcs = append(srcs, pre+fmt.Sprintf(form, name))
+			}
+			// the fields of a made struct value: read, and - for fields of an interface type with methods, nil in a made
+			// value - a method selected and called through them
+			st := env.PackageTypes[pkg][name]
+			for st.Kind() == reflect.Ptr {
+				st = st.Elem()
+			}
+			if st.Kind() == reflect.Struct {
+				for fi := 0; fi < st.NumField() && fi < 12; fi++ {
+					f := st.Field(fi)
+					if f.PkgPath != "" {
+						continue
+					}
+					mk := pre + "zz = make(pk." + name + ")\n"
+					srcs = append(srcs, mk+"zz."+f.Name, mk+"zz."+f.Name+" = zz."+f.Name, mk+"zz."+f.Name+" == nil", mk+"len(zz."+f.Name+")", mk+"for q in zz."+f.Name+" { break }")
+					if f.Type.Kind() == reflect.Interface && f.Type.NumMethod() > 0 {
+						m := f.Type.Method(0).Name
+						srcs = append(srcs, mk+"zz."+f.Name+"."+m, mk+"zz."+f.Name+"."+m+"()", mk+"yy = zz."+f.Name+"\nyy."+m, mk+"[zz."+f.Name+"][0]."+m)
+					}
+					if f.Type.Kind() == reflect.Ptr || f.Type.Kind() == reflect.Map || f.Type.Kind() == reflect.Func || f.Type.Kind() == reflect.Chan {
+						srcs = append(srcs, mk+"*zz."+f.Name, mk+"zz."+f.Name+".x", mk+"zz."+f.Name+"()", mk+"zz."+f.Name+"[\"k\"]", mk+"zz."+f.Name+"[\"k\"] = 1")
+					}
+				}
 			}
 		}
 	}
